@@ -28,7 +28,8 @@ LEVEL = "exploration"
 RULE = ("(1) every single-value position of C05's position table x value kind x dialect, parameterised; (2) seeded random "
         "statements of every kind per dialect class (select with joins/subqueries/CASE/functions/IN/BETWEEN/GROUP BY/HAVING/"
         "ORDER BY/limit/offset, set operations, insert/upsert, update, delete, DDL) with values in several clauses at once, "
-        "exempt values mixed in; (3) SQLite statements executed in both forms. non-trivial = at least two placeholders; "
+        "exempt values (allow_parametrize=False, carrying sentinel values) in every clause; every value rendered inline under an "
+        "active parameterizer is seen through the value hook and must be an enum, '*' or exempt; (3) SQLite statements executed in both forms. non-trivial = at least two placeholders; "
         "distinct = program hash x dialect")
 ASSUMPTIONS = [
     "reference lexers decide placeholder style and literal decoding for the five non-SQLite dialect classes",
